@@ -20,6 +20,21 @@ def convex(rng, n, cx, cy, r):
     return [[round(cx + r * rng.uniform(0.7, 1.0) * math.cos(a), 3), round(cy + r * rng.uniform(0.7, 1.0) * math.sin(a), 3)] for a in ang]
 
 
+def hull(pts):
+    """convex hull (counter-clockwise, no collinear points)"""
+    pts = sorted(set((round(x, 3), round(y, 3)) for x, y in pts))
+
+    def half(seq):
+        h = []
+        for p in seq:
+            while len(h) >= 2 and (h[-1][0] - h[-2][0]) * (p[1] - h[-2][1]) - (h[-1][1] - h[-2][1]) * (p[0] - h[-2][0]) <= 0:
+                h.pop()
+            h.append(p)
+        return h
+    lo, up = half(pts), half(reversed(pts))
+    return [list(p) for p in lo[:-1] + up[:-1]]
+
+
 def is_convex(p):
     s = 0
     for i in range(len(p)):
@@ -300,16 +315,24 @@ def run(chk):
         poly = convex(rng, nv, r0 + 3, r0 + 3, r0)
         if not is_convex(poly):
             continue
-        k = rng.randrange(len(poly))
-        ox, oy = poly[k]
-        poly = [[round(p[0] - ox, 3), round(p[1] - oy, 3)] for p in poly]          # vertex k at the origin
         mx, my = min(p[0] for p in poly), min(p[1] for p in poly)
         poly = [[round(p[0] - mx, 3), round(p[1] - my, 3)] for p in poly]          # first quadrant, touching both axes
+        if rng.random() < 0.7:
+            poly = hull(poly + [[0.0, 0.0]])                                          # ... with a corner exactly at the origin
+        if rng.random() < 0.5:
+            poly = poly[::-1]
+        if len(poly) < 3:
+            continue
         dx, dy = rng.choice([(8.0, 4.0), (13.5, 5.25), (0.0, 21.75)])
         rot = rng.choice([-60.0, -30.0, -7.5, 0.0, 20.0, 45.0])
         sp = round(rng.uniform(6, 14), 2)
         tr.append(({"mode": "config", "poly": poly, "spacing": sp, "rotate": rot, "timeout": 40},
                    {"mode": "config", "poly": [[round(p[0] + dx, 3), round(p[1] + dy, 3)] for p in poly], "spacing": sp, "rotate": rot, "timeout": 40}, (dx, dy)))
+    for poly, sp, rot, (dx, dy) in (([[0.0, 0.0], [70.0, 0.0], [90.0, 40.0], [40.0, 80.0], [0.0, 50.0]], 10.0, -30.0, (8.0, 4.0)),
+                                    ([[0.0, 0.0], [80.0, 10.0], [30.0, 70.0]], 8.5, -45.0, (13.5, 5.25)),
+                                    ([[0.0, 0.0], [60.0, 0.0], [60.0, 45.0], [0.0, 45.0]], 7.0, -15.0, (0.0, 21.75))):
+        tr.append(({"mode": "config", "poly": poly, "spacing": sp, "rotate": rot, "timeout": 40},
+                   {"mode": "config", "poly": [[p[0] + dx, p[1] + dy] for p in poly], "spacing": sp, "rotate": rot, "timeout": 40}, (dx, dy)))
     with ThreadPoolExecutor(max_workers=NPROC) as ex:
         rt = list(ex.map(lambda pr: run_impl("rowwise_drv.py", {"cases": [pr[0], pr[1]]}, timeout=200), tr))
     for (a_, b_, (dx, dy)), rr in zip(tr, rt):
